@@ -244,6 +244,52 @@ def directed(name, quick):
             P.act('Flatten', tgt)
             P.act('Flatten', tgt)
             out.append(P.steps)
+    if name == 'implicitdeep':
+        # a chain on one channel, then an operation tied explicitly to an EARLY link of the chain (so the most recently added
+        # operation on the channel is not the deepest one), then something added without relation: it follows the deepest
+        import itertools
+        for n, tgt, rt, last, dur in itertools.product((3, 4), (0, 1), ('FB', 'JS', 'JE'), ('op', 'sub', 'two'), (2, 12)):
+            P = PB.Prog()
+            c = P.new()
+            chain = [P.add(c, PB.W(0, 4 + 2 * k)) for k in range(n)]
+            P.add(c, PB.leaf('Rx180', [0], [[0, 'MICROWAVE']], ['fixed', dur]), ref=chain[tgt], rt=rt)
+            if last == 'op':
+                P.add(c, PB.leaf('Ry90', [0], [[0, 'MICROWAVE']], ['global', 'MW']))
+            elif last == 'two':
+                P.add(c, PB.leaf('CPhase', [0, 1], [[0, 'FLUX'], [0, 'MICROWAVE'], [1, 'FLUX'], [1, 'MICROWAVE']], ['global', 'FL']))
+            else:
+                s_ = P.new()
+                P.add(s_, PB.leaf('Ry90', [0], [[0, 'MICROWAVE']], ['global', 'MW']))
+                P.add_sub(c, s_)
+            out.append(P.steps)
+    if name == 'regrep':
+        # a block whose count comes from a registry is nested; the registry value is set or changed AFTER the nesting (and after
+        # a further nesting level), then modifiers are applied
+        import itertools
+        for v0, v1, depth, early in itertools.product((None, 2), (3, 2), (1, 2), (False, True)):
+            if v0 == v1:
+                continue
+            P = PB.Prog()
+            if v0 is not None:
+                P.act('SetRep', key='r1', val=v0)
+            blk = P.new(rep=('reg', 'r1'))
+            P.add(blk, PB.X(0))
+            P.add(blk, PB.M(0))
+            top = P.new()
+            P.add(top, PB.X(1))
+            if depth == 2:
+                mid = P.new(rep=2)
+                P.add_sub(mid, blk)
+                P.add(mid, PB.W(1, 4))
+                if early:
+                    P.act('SetRep', key='r1', val=v1)
+                P.add_sub(top, mid)
+            else:
+                P.add_sub(top, blk)
+            if not (early and depth == 2):
+                P.act('SetRep', key='r1', val=v1)
+            P.act('Apply', top)
+            out.append(P.steps)
     if name == 'durhist':
         # the duration is read, then a registry duration (of a top-level or nested operation) changes without anything being
         # added, and the duration is read again; also read / unroll / read
@@ -419,11 +465,11 @@ def directed(name, quick):
 
 
 SOURCES = {
-    'C01': ('flat', 'nest', 'chan', 'deep', 'subrel', 'unroll2', 'unroll3', 'sim', 'repotests', 'library'),
+    'C01': ('flat', 'nest', 'chan', 'deep', 'subrel', 'implicitdeep', 'unroll2', 'unroll3', 'sim', 'repotests', 'library'),
     'C02': ('twinblocks', 'subrel', 'nest3', 'flat', 'nest', 'chan', 'deep', 'obsnest', 'sim', 'repotests', 'library'),
-    'C04': ('flat', 'nest', 'nest0', 'durhist', 'sim', 'repotests'),
-    'C05': ('kinds', 'copyapplied', 'twinops', 'twinblocks', 'nest', 'mask', 'sim'),
-    'C06': ('unroll', 'unroll2', 'unroll3', 'applyalias', 'twinblocks', 'nest', 'sim', 'library'),
+    'C04': ('flat', 'nest', 'nest0', 'durhist', 'subrel', 'sim', 'repotests'),
+    'C05': ('kinds', 'copyapplied', 'twinops', 'twinblocks', 'regrep', 'nest', 'mask', 'sim'),
+    'C06': ('unroll', 'unroll2', 'unroll3', 'applyalias', 'regrep', 'twinblocks', 'nest', 'sim', 'library'),
     'C07': ('acq', 'acqdir', 'sim'),
     'C11': ('flatten', 'flatdir', 'flatnest', 'sim', 'library'),
     'C03': ('hist', 'plothist', 'acq', 'acqdir', 'twinops', 'twinblocks', 'durhist', 'nest3', 'obsnest', 'sim'),
@@ -543,7 +589,7 @@ M_Init == /\\ heap = DoNewCircuit(DoAddOp(DoNewCircuit(<<>>, "n1", NoLink, <<"fi
       reps=[('fixed', 2), ('fixed', 3)], acts=('NewCircuit', 'AddOp', 'AddSub', 'Apply'), linktypes=(), max_circs=2, max_objs=8,
       max_steps=6 if quick else 7, workers=8, min_emit=6, timeout=120, cap=1500 if quick else 20000,
       keep=lambda p: p[-1]['a'] == 'Apply' and any(s['a'] == 'AddSub' for s in p))
-    for dn in ('flatdir', 'copyapplied', 'qldir', 'acqdir', 'unroll3', 'twinops', 'twinblocks', 'qlreal', 'durhist', 'subrel', 'nest3', 'applyalias', 'drawdir', 'flatnest'):
+    for dn in ('flatdir', 'copyapplied', 'qldir', 'acqdir', 'unroll3', 'twinops', 'twinblocks', 'qlreal', 'durhist', 'subrel', 'nest3', 'applyalias', 'drawdir', 'flatnest', 'implicitdeep', 'regrep'):
         if dn in want:
             out.append({'name': dn, 'programs': directed(dn, quick), 'generated': 0, 'tlc_states': 0, 'tlc_generated': 0, 'mode': 'directed family (python)'})
             out[-1]['generated'] = len(out[-1]['programs'])
@@ -800,19 +846,29 @@ def run(pid, tier):
 MUTATIONS = ('AddOp', 'AddSub', 'Apply', 'Flatten', 'SetDur', 'SetRep', 'Enter', 'Leave', 'CopyCirc')
 
 
-def memo_trigger(trace, upto):
+def memo_trigger(trace, upto, single_only=False):
     """Is the failing observation inside the trigger class of the known memo defect?  (a) an earlier unrolling that
     appended copies (chaining queries times before relations are handed to nested operations), or (b) an earlier
-    time query followed by a mutation.  A stale value outside this class is a new violation."""
+    time query followed by a mutation.  A stale value outside this class is a new violation.
+    single_only: the observed circuit has no group relation at all, so only the memo of single relations is involved -- and
+    that one the compact drawing clears on entry and on exit: a compact plot/draw is then no time query, it even wipes what
+    earlier queries left behind."""
     queried = False
     for e in trace[:upto]:
         if e['ev'] == 'Apply' and e.get('new'):
             return True
         if e['ev'] == 'Obs':
-            queried = True
+            if single_only and e.get('what') in ('plot', 'draw'):
+                queried = False
+            else:
+                queried = True
         elif queried and e['ev'] in MUTATIONS:
             return True
     return False
+
+
+def no_group_relation(snap):
+    return not any(o['rlink']['k'] == 'multi' for o in list(snap['leaves'].values()) + list(snap['comps'].values()))
 
 
 def twin_trigger(trace, upto, c=None):
@@ -923,7 +979,8 @@ def signature(f, ev, trace, prog):
     """Signature used to match a failure against KNOWN_FINDINGS.json (None = never known)."""
     cl = f['clause']
     if f.get('memo') or cl.startswith('C03.memo'):
-        return 'stale-memo' if memo_trigger(trace, f['l'] - 1) else None
+        so = ev.get('ev') == 'Obs' and 'snap' in ev and no_group_relation(ev['snap'])
+        return 'stale-memo' if memo_trigger(trace, f['l'] - 1, single_only=so) else None
     if '.shift_moved' in cl:
         return 'coordinate-shift-moved'
     if cl.startswith('C11.library.') and cl.endswith('.relinked'):
@@ -950,6 +1007,24 @@ def signature(f, ev, trace, prog):
         blk = ev['snap']['comps'].get(m.group(1)) if m else None
         if blk and blk['rlink']['k'] == 'one' and blk['rlink']['rt'] == 'JE':
             return 'je-block-handover'
+    if cl == 'C04.span' and ev.get('ev') == 'Obs':
+        # ... and seen from outside: an enclosing block's duration is taken over [start, end] of the JOINED_END block, whose
+        # contents really end later than it reports
+        snap = ev['snap']
+
+        def inside(k, top):
+            seen = 0
+            while k and seen < 1000:
+                if k == top:
+                    return True
+                k = (snap['comps'].get(k) or {}).get('home', '')
+                seen += 1
+            return False
+        for k, cmp_ in snap['comps'].items():
+            if k != f['obj'] and inside(k, f['obj']) and cmp_['rlink']['k'] == 'one' and cmp_['rlink']['rt'] == 'JE':
+                ends = [snap['leaves'][m]['end'] for m in cmp_['members'] if m in snap['leaves']]
+                if ends and max(ends) > cmp_['end']:
+                    return 'je-block-handover'
     if cl == 'C01.frame' and ev.get('ev') == 'Obs':
         snap = ev['snap']
         o = snap['leaves'].get(f['obj']) or snap['comps'].get(f['obj'])
@@ -1022,7 +1097,8 @@ def erasure(v, programs, traces, prefix='C03.erasure'):
                         return True
                 return False
             if cl in ('C03.erasure.time', 'C03.erasure.block') and (stale(fa) or stale(fb)) and \
-                    (memo_trigger(ta, len(ta)) or memo_trigger(tbk, len(tbk))):
+                    (memo_trigger(ta, len(ta), single_only=all(no_group_relation(sn) for sn in list(fa.values()) + list(fb.values())))
+                     or memo_trigger(tbk, len(tbk), single_only=all(no_group_relation(sn) for sn in list(fa.values()) + list(fb.values())))):
                 sig = 'stale-memo'
             elif cl in ('C03.erasure.index', 'C03.erasure.indices', 'C03.erasure.export') and twin_trigger(ta, len(ta)) and \
                     any(lf['acq_c'] == -1 for sn in list(fa.values()) + list(fb.values()) for lf in sn['leaves'].values()):
